@@ -30,7 +30,8 @@ RULE = ("Hypothesis draws well-formed definition closures (vlib.defgen.programs:
         "carries them) of every message and struct are compared between the generator's expectation, the parser model, Python "
         "(ctypes), C (gcc probe: sizeof/_Alignof/offsetof/_Generic), JavaScript (node) and MATLAB (interpreter); sizeof/offsetof from "
         "gcc == ctypes == type_size == sum of MATLAB element sizes == expectation.  A stream of NEAR MISSES runs beside it: hand-written files with zero / negative / fractional array lengths and with "
-        "one name given to two kinds of definition across files (with a field that uses it), with the 7 reserved field names, definitions that "
+        "one name given to two kinds of definition across files (with a field that uses it), with the 7 reserved field names, with field names that start with underscores, with a constant / string constant / alias / host "
+        "id / struct named like something the generated Python module imports or defines for itself (27 names x 5 kinds, rotating slice), definitions that "
         "need padding compiled with auto_pad off and validation on (through compile() keywords, the CLI flag and compiler_options in the YAML; "
         "hand-written layouts and the generator's layout profile), generated programs of the generator's 'fractional-length' and 'reserved-field-name' classes, plus a rotating slice "
         "(all in the thorough tier) of the generator's 804-case conflict table; a rejection is only counted, an accepted one gets the same cross-language "
@@ -512,9 +513,66 @@ def near_miss_family():
                 root += "message_defs:\n" + _NM_USER
             out.append((f"name-{second}-shadows-imported-{first}", {"files": {"base.yaml": _NM_BASE[first], "root.yaml": root}, "root": "root.yaml"},
                         dict(auto_pad=True, validate_alignment=True, import_coredefs=False)))
+    for fname in ("_pad", "__pad", "__pad__", "_"):
+        text = f"message_defs:\n  NM_UND:\n    id: 4710\n    fields:\n      first: int32\n      {fname}: int32\n      value: double\n  NM_UND2:\n    id: 4711\n    fields:\n      u: NM_UND[2]\n"
+        out.append((f"field-name-leading-underscore/{fname}", {"files": {"nm.yaml": text}, "root": "nm.yaml"}, dict(auto_pad=True, validate_alignment=True, import_coredefs=False)))
     for fname in G.RESERVED_FIELD_NAMES:
         text = f"message_defs:\n  NM_RSV:\n    id: 4700\n    fields:\n      first: int32\n      {fname}: int32\n      value: double\n"
         out.append((f"reserved-field-name/{fname}", {"files": {"nm.yaml": text}, "root": "nm.yaml"}, dict(auto_pad=True, validate_alignment=True, import_coredefs=False)))
+    return out
+
+
+# names the generated Python module imports or defines for its own use (read off the head of any generated .py file)
+PY_MODULE_NAMES = ["Double", "MessageData", "ClassVar", "Struct", "String", "Int32", "pyrtma", "ctypes", "MessageMeta", "MessageBase", "Int8", "Int16", "Int64",
+                   "Uint8", "Uint16", "Uint32", "Uint64", "Float", "IntArray", "FloatArray", "StructArray", "Char", "Byte", "ByteArray",
+                   "check_compiled_version", "get_context", "COMPILED_PYRTMA_VERSION"]
+_MN_FIELDS = """      f1: double
+      i8: int8
+      i16: int16
+      i32: int32
+      i64: int64
+      u8: uint8
+      u16: uint16
+      u32: uint32
+      u64: uint64
+      fl: float
+      ch: char
+      by: byte
+      s: char[8]
+      ba: byte[8]
+      ia: int32[4]
+      fa: float[4]
+      da: double[2]
+      st: NMS_INNER
+      sa: NMS_INNER[2]
+"""
+
+
+def module_name_cases():
+    """[(kind, name, src, opts)]: a constant / string constant / alias / host id / struct that bears a name the generated
+    Python module uses itself, next to a message that exercises every field descriptor.  The compiler may refuse such a
+    name (then the case is only counted); if it accepts it, all outputs must still load and agree."""
+    out = []
+    inner = "  NMS_INNER:\n    fields:\n      p: double\n      q: int32\n      r: int32\n"
+    for name in PY_MODULE_NAMES:
+        for dk in ("alias", "struct", "constant", "string", "host"):
+            head, first = "", "      f0: double\n"
+            structs = "struct_defs:\n" + inner
+            if dk == "alias":
+                head, first = f"aliases:\n  {name}: double\n", f"      f0: {name}\n"
+            elif dk == "struct":
+                structs += f"  {name}:\n    fields:\n      p: double\n      n: int64\n"
+                first = f"      f0: {name}\n"
+            elif dk == "constant":
+                head, first = f"constants:\n  {name}: 4\n", f"      f0: double[{name}]\n"
+            elif dk == "string":
+                head = f"string_constants:\n  {name}: some text\n"
+            else:
+                head = f"host_ids:\n  {name}: 12\n"
+            text = head + structs + "message_defs:\n  NMS_MSG:\n    id: 4900\n    fields:\n" + first + _MN_FIELDS + \
+                "  NMS_SECOND:\n    id: 4901\n    fields:\n      m: NMS_MSG\n      k: int32\n  NMS_SIG:\n    id: 4902\n    fields: null\n"
+            out.append((f"name-used-by-generated-python/{dk}", name, {"files": {"mn.yaml": text}, "root": "mn.yaml"},
+                        dict(auto_pad=True, validate_alignment=True, import_coredefs=False)))
     return out
 
 
@@ -648,6 +706,17 @@ def shard(seed, n, idx, quick):
                     res.add_finding(key, what, {"key": key, "near_miss": kind, "how": how, "src": src, "opts": arg})
                 res.count("near-miss/misaligned-" + how)
                 res.evaluations += 1
+        # names the generated Python module uses itself: a rotating slice (all in the thorough tier)
+        mn = module_name_cases()
+        mine = [c for j, c in enumerate(mn) if j % 16 == idx]
+        if quick:
+            start = (seed * 5) % len(mine)
+            mine = [mine[(start + j) % len(mine)] for j in range(3)]
+        for kind, name, src, opts in mine:
+            for key, what in run_near_miss(E, kind, src, opts, res):
+                res.add_finding(key, f"[{name}] {what}", {"key": key, "near_miss": kind, "how": "kwargs", "src": src, "opts": opts})
+            res.count("near-miss/module-name")
+            res.evaluations += 1
         # the generator's layout profile: field sequences that need padding, auto_pad off -> AlignmentError expected
         for j in range(3 if quick else 30):
             q = G.build_layout_program(G.RandomChooser(seed * 100 + j), auto_pad=False)
